@@ -9,7 +9,7 @@ git checkout -q -- . ; rm -rf tests; NAME=$(basename "$DEMO" .rs)
 git apply "$PATCH" || { echo "patch does not apply"; exit 2; }
 echo -n "suite with change:   "; if cargo test --offline >/tmp/vs.$$ 2>&1; then grep -m1 "^test result" /tmp/vs.$$; else echo FAIL; grep -E "FAILED|failed|error" /tmp/vs.$$ | head -5; fi
 mkdir -p tests; cp "$DEMO" tests/
-echo -n "demo with change:    "; if cargo test --offline --features std --test "$NAME" >/tmp/vs.$$ 2>&1; then echo "pass (BAD: should fail)"; else echo "fails (good): $(grep -E "panicked" /tmp/vs.$$ | head -1 | cut -c1-160)"; fi
+echo -n "demo with change:    "; if cargo test --offline --features std,bincode-codec,postcard-codec --test "$NAME" >/tmp/vs.$$ 2>&1; then echo "pass (BAD: should fail)"; else echo "fails (good): $(grep -E "panicked" /tmp/vs.$$ | head -1 | cut -c1-160)"; fi
 git checkout -q -- .
-echo -n "demo without change: "; if cargo test --offline --features std --test "$NAME" >/tmp/vs.$$ 2>&1; then echo pass; else echo FAIL; tail -5 /tmp/vs.$$; fi
+echo -n "demo without change: "; if cargo test --offline --features std,bincode-codec,postcard-codec --test "$NAME" >/tmp/vs.$$ 2>&1; then echo pass; else echo FAIL; tail -5 /tmp/vs.$$; fi
 rm -rf tests; rm -f /tmp/vs.$$
